@@ -101,7 +101,7 @@ class JobRunner(JobManagerBase):
             # Setting node_setup_script and node_shutdown_script are obsolete and will
             # eventually be deleted.
             group = self._config.get_default_submission_group()
-            if group.submitter_params.node_setup_script is not None:
+            if group.submitter_params.node_setup_script:
                 cmd = f"{group.submitter_params.node_setup_script} {config_file} {self._output}"
                 check_run_command(cmd, env=env)
             elif self._config.node_setup_command is not None:
